@@ -50,14 +50,33 @@ fn main() {
     t = replace_once(&t, "#[tokio::main]\n", "", "tokio::main attribute", &mut problems);
     t = replace_once(&t, "async fn handle_connection(\n    mut stream: TcpStream,", "async fn handle_connection(\n    mut stream: impl tokio::io::AsyncRead + tokio::io::AsyncWrite + Unpin,", "handle_connection signature", &mut problems);
     t = replace_once(&t, "    let _ = stream.set_nodelay(true);\n\n    let mut read_buf", "    let mut read_buf", "set_nodelay in handle_connection", &mut problems);
+    // 5. the start-up wiring in the middle of `main` (recovery from the object store, WAL replay, persistence workers
+    //    and delta sink, WAL actor) is copied out, verbatim, into a function of its own that takes the configuration
+    //    `main` reads from the environment as arguments
+    let (start_mark, end_mark) = ("    // Create state with replication config\n", "    let state = Arc::new(state);\n");
+    let mut startup_fn = String::new();
+    if t.matches(start_mark).count() == 1 && t.matches(end_mark).count() == 1 {
+        let a = t.find(start_mark).unwrap();
+        let b = t.find(end_mark).unwrap() + end_mark.len();
+        if a < b {
+            let block = &t[a..b];
+            startup_fn = format!("\npub const STARTUP_AVAILABLE: bool = true;\n#[allow(clippy::type_complexity)]\npub async fn verif_startup(store_type: &str, data_path: std::path::PathBuf, wal: Option<WalConfig>, repl_config: redis_sim::replication::ReplicationConfig) -> Result<(Arc<ReplicatedShardedState>, Option<redis_sim::streaming::WorkerHandles>, Option<(redis_sim::streaming::WalActorHandle, tokio::task::JoinHandle<()>, Option<tokio::task::JoinHandle<()>>)>), Box<dyn std::error::Error + Send + Sync>> {{\n    let config = Config {{ port: 0, store_type: store_type.to_string(), data_path }};\n    let mut streaming_config = config.to_streaming_config()?;\n    streaming_config.wal = wal;\n{}    Ok((state, worker_handles, wal_task))\n}}\n", block);
+        }
+    }
+    if startup_fn.is_empty() {
+        println!("cargo:warning=server_persistent.rs: start-up block of main() not found between its marker lines");
+        startup_fn = "\npub const STARTUP_AVAILABLE: bool = false;\npub async fn verif_startup(_store_type: &str, _data_path: std::path::PathBuf, _wal: Option<redis_sim::streaming::WalConfig>, _repl_config: redis_sim::replication::ReplicationConfig) -> Result<(std::sync::Arc<redis_sim::production::ReplicatedShardedState>, Option<redis_sim::streaming::WorkerHandles>, Option<(redis_sim::streaming::WalActorHandle, tokio::task::JoinHandle<()>, Option<tokio::task::JoinHandle<()>>)>), Box<dyn std::error::Error + Send + Sync>> { Err(\"unavailable\".into()) }\n".to_string();
+    }
     if problems.is_empty() {
+        t = format!("macro_rules! println {{ ($($t:tt)*) => {{{{}}}} }}\n{}", t);
+        t.push_str(&startup_fn);
         t.push_str("\npub const AVAILABLE: bool = true;\npub const PROBLEMS: &str = \"\";\n");
         t.push_str("pub async fn verif_handle_connection<S: tokio::io::AsyncRead + tokio::io::AsyncWrite + Unpin>(stream: S, state: std::sync::Arc<redis_sim::production::ReplicatedShardedState>) -> Result<(), String> { handle_connection(stream, state).await.map_err(|e| e.to_string()) }\n");
         t.push_str("pub fn verif_encode_resp(value: &redis_sim::redis::RespValue) -> Vec<u8> { let mut b = bytes::BytesMut::new(); encode_resp_into(value, &mut b); b.to_vec() }\n");
         t.push_str("pub fn verif_encode_error(msg: &str) -> Vec<u8> { let mut b = bytes::BytesMut::new(); encode_error_into(msg, &mut b); b.to_vec() }\n");
     } else {
         for p in &problems { println!("cargo:warning=server_persistent.rs not included: {}", p); }
-        t = format!("pub const AVAILABLE: bool = false;\npub const PROBLEMS: &str = {:?};\npub async fn verif_handle_connection<S: tokio::io::AsyncRead + tokio::io::AsyncWrite + Unpin>(_stream: S, _state: std::sync::Arc<redis_sim::production::ReplicatedShardedState>) -> Result<(), String> {{ Err(String::new()) }}\npub fn verif_encode_resp(_value: &redis_sim::redis::RespValue) -> Vec<u8> {{ Vec::new() }}\npub fn verif_encode_error(_msg: &str) -> Vec<u8> {{ Vec::new() }}\n", problems.join("; "));
+        t = format!("pub const STARTUP_AVAILABLE: bool = false;\npub async fn verif_startup(_store_type: &str, _data_path: std::path::PathBuf, _wal: Option<redis_sim::streaming::WalConfig>, _repl_config: redis_sim::replication::ReplicationConfig) -> Result<(std::sync::Arc<redis_sim::production::ReplicatedShardedState>, Option<redis_sim::streaming::WorkerHandles>, Option<(redis_sim::streaming::WalActorHandle, tokio::task::JoinHandle<()>, Option<tokio::task::JoinHandle<()>>)>), Box<dyn std::error::Error + Send + Sync>> {{ Err(\"unavailable\".into()) }}\npub const AVAILABLE: bool = false;\npub const PROBLEMS: &str = {:?};\npub async fn verif_handle_connection<S: tokio::io::AsyncRead + tokio::io::AsyncWrite + Unpin>(_stream: S, _state: std::sync::Arc<redis_sim::production::ReplicatedShardedState>) -> Result<(), String> {{ Err(String::new()) }}\npub fn verif_encode_resp(_value: &redis_sim::redis::RespValue) -> Vec<u8> {{ Vec::new() }}\npub fn verif_encode_error(_msg: &str) -> Vec<u8> {{ Vec::new() }}\n", problems.join("; "));
     }
     std::fs::write(&out, t).expect("write generated module");
 }
